@@ -238,3 +238,69 @@ Definition calendar_fill (ct : ctable) : ctable :=
     | None => None
     end in
   map (fun p => (fst p, cell (fst p))) ct.
+
+(* ------------------------------------------------------------------ the data class in front of predict
+   _HourlyData._set_data (hourly/data.py): the caller's records, in the order given, may repeat a time stamp (meter and
+   weather feeds concatenated without a join).  Stages:
+     select          remove_duplicates: keep the FIRST record of every stamp, whatever it holds (CalTRACK 2.3.2.2) —
+                     a function of the index alone (KeepFirst).  DropEmptyKeepFirst is the variant that discards records
+                     without any reading first (`df.dropna(how="all")` before the de-duplication): whether a record is
+                     empty depends on its usage cell, so the surviving record does too.
+     calendar        _get_contiguous_datetime: the contiguous hourly index from local 00:00 of the first selected stamp
+                     to 23:00 of the last one, grouped by local date — a function of the selected index (oracle: C06
+                     models it, Model/Dst.v contiguous_index; the tz data are not modelled)
+     fill_w, fill_o  interpolate(): every column is gap-filled from ITS OWN values (oracles, one per column)
+   The result is the frame handed to hourly_flow. *)
+Inductive dedup_policy := KeepFirst | DropEmptyKeepFirst.
+
+Section DataStage.
+  Context {Wc W O : Type}.       (* Wc: the weather cells of a caller's record (each may be NaN); W: weather after gap filling *)
+  Record rec := { q_utc : Z; q_w : Wc; q_obs : option O }.
+  Variable w_empty : Wc -> bool.                    (* every weather cell of the record is NaN *)
+  Definition empty_rec (r : rec) : bool := w_empty (q_w r) && is_none (q_obs r).
+
+  Fixpoint keep_first (seen : list Z) (l : list rec) : list rec :=
+    match l with
+    | [] => []
+    | r :: t => if existsb (Z.eqb (q_utc r)) seen then keep_first seen t else r :: keep_first (q_utc r :: seen) t
+    end.
+  Definition select (p : dedup_policy) (l : list rec) : list rec :=
+    match p with
+    | KeepFirst => keep_first [] l
+    | DropEmptyKeepFirst => keep_first [] (filter (fun r => negb (empty_rec r)) l)
+    end.
+
+  Definition cal_stamp := (Z * Z * Z * nat)%type.                       (* utc, month, weekday, local hour *)
+  Variable calendar : list Z -> list (list cal_stamp * option err).     (* selected index -> dates of the contiguous index *)
+  Variable fill_w : list (option Wc) -> list W.                         (* None: the contiguous index has no record there *)
+  Variable fill_o : list (option O) -> list (option O).
+
+  Definition find_rec (sel : list rec) (u : Z) : option rec := find (fun r => Z.eqb (q_utc r) u) sel.
+  Definition cs_utc (s : cal_stamp) : Z := let '(u, _, _, _) := s in u.
+
+  Definition mk_hrow (s : cal_stamp) (w : W) (o : option O) : hrow W O :=
+    let '(u, m, d, h) := s in {| r_utc := u; r_month := m; r_dow := d; r_hour := h; r_w := w; r_obs := o |}.
+
+  Fixpoint split_days (cal : list (list cal_stamp * option err)) (flat : list (hrow W O)) : frame W O :=
+    match cal with
+    | [] => []
+    | (st, loc) :: rest =>
+        {| h_rows := firstn (length st) flat; h_loc := loc |} :: split_days rest (skipn (length st) flat)
+    end.
+
+  Definition data_stage (p : dedup_policy) (recs : list rec) : frame W O :=
+    let sel := select p recs in
+    let cal := calendar (map q_utc sel) in
+    let stamps := concat (map fst cal) in
+    let wcol := fill_w (map (fun s => option_map q_w (find_rec sel (cs_utc s))) stamps) in
+    let ocol := fill_o (map (fun s => match find_rec sel (cs_utc s) with Some r => q_obs r | None => None end) stamps) in
+    let flat := map (fun swk => mk_hrow (fst (fst swk)) (snd (fst swk)) (nth (snd swk) ocol None))
+                    (combine (combine stamps wcol) (seq 0 (length stamps))) in
+    split_days cal flat.
+
+  (* two lists of records that differ in nothing but the usage cells *)
+  Definition rec_view (r : rec) : Z * Wc := (q_utc r, q_w r).
+  Definition same_records_but_usage (a b : list rec) : Prop := map rec_view a = map rec_view b.
+End DataStage.
+
+Arguments rec : clear implicits.
